@@ -113,3 +113,18 @@ reg('C19',
     level_text='Exhaustive over all bodies up to the stated length, every index and every capacity: any unsound OK, wrong value/range/dimension, NO_MORE for an existing entry, missing -170 or store beyond the announced capacity is reported.',
     level_note='libc strtod is trusted for the expected double values (C04 checks the conversions independently)',
     design_ref='DESIGN.md section 3 / C19')
+
+reg('C03',
+    title='a pattern accepts exactly the headers of its short/long-form language',
+    src='c03_pattern.c',
+    configs={'quick': ['def'], 'thorough': ['def']},
+    deadline={'quick': 100, 'thorough': 1500},
+    level=MC,
+    technique='bounded-exhaustive enumeration of (pattern, header) pairs on the real matcher (ASan), compared with an independent reference matcher, plus the public SCPI_Input path',
+    rule={'quick': 'patterns: all 1248 patterns of 1..4 keywords taken in order from {ABcd, EFgh, IJ, KLMno}, each keyword optional and/or numeric, with/without ?, plus 44 shipped/common patterns. headers per pattern: (A) every sequence of <= 3 mnemonics over {short, long, long+letter, short+"1"} of each keyword plus an alien mnemonic x colon x ? x 2 cases; (B) every keyword subset / alien insertion / adjacent swap spelled (up to 4 mnemonics) with every combination of 5 forms per mnemonic x colon x ? x 3 cases; an eighth of the patterns additionally through SCPI_Input -> handler -> SCPI_CommandNumbers. non-trivial = header the reference accepts',
+          'thorough': 'as quick with <= 5 (4 for 4-keyword patterns) mnemonics in (A), 8 forms and up to 5 mnemonics in (B) and every pattern through SCPI_Input'},
+    assumptions=['vocabulary keywords have pairwise distinct short and long forms, which guarantees the statement\'s unambiguity side condition',
+                 'numeric suffixes are decimal digit strings (the lexer admits nothing else inside a mnemonic)'],
+    level_text='Exhaustive over the stated pattern and header sets: any accept/reject disagreement with the reference language, any wrong or missing numeric suffix (including defaults for skipped keywords), and any read outside the header are reported.',
+    level_note='matchCommand is a private (LOCAL) function called by name, as in the repository tests; SCPI_Match / SCPI_CommandNumbers cover the public path',
+    design_ref='DESIGN.md section 3 / C03')
